@@ -59,6 +59,29 @@ type CaptureSpec struct {
 	ISB        bool // interface statistics block at the end
 	NRB        bool // a name resolution block after the interface descriptions
 	SectionLen bool // the section header states the section length instead of -1 (report-only configuration)
+	// SnapChoice > 0 (configuration snaplen): the capture is taken with a
+	// snap length that WriteCapture derives from the frames: never below the
+	// longest link+IP+TCP header of the run, so that only payload is cut.
+	SnapChoice int
+}
+
+// snapCandidates are snap lengths as people use them; each is raised to the
+// longest header of the run. 0 and 1 stand for "headers only" and one byte
+// more.
+var snapCandidates = [...]int{0, 96, 1, 128, 68, 200, 256, 7, 400, 600, 1000, 1514, 9000}
+
+func linkHdrLen(link int) int {
+	switch link {
+	case LinkEthernet:
+		return 14
+	case LinkSLL:
+		return 16
+	case LinkSLL2:
+		return 20
+	case LinkNull:
+		return 4
+	}
+	return 0
 }
 
 func (s *CaptureSpec) IsPcapng() bool { return s.FileType >= FilePcapngLE }
@@ -105,6 +128,9 @@ func DrawCaptureSpec(c Chooser, p Params) *CaptureSpec {
 		if p.Wide {
 			s.SectionLen = chance(c, 1, 6)
 		}
+	}
+	if p.Snaplen {
+		s.SnapChoice = 1 + c.Intn(len(snapCandidates))
 	}
 	return s
 }
@@ -204,11 +230,47 @@ func WriteCapture(w *World, s *CaptureSpec) []byte {
 	padded := 0
 	nIf := len(s.Links)
 	ifOf := func(r *TapRec) int { return r.SrcHost % nIf }
-	frameOf := func(r *TapRec) []byte {
+	snap := 0 // 0 = frames are captured whole
+	if s.SnapChoice > 0 && w.MTU == 0 {
+		hdrMax := 0
+		for i := range w.Tap {
+			if r := &w.Tap[i]; !r.Omitted {
+				if h := linkHdrLen(s.Links[ifOf(r)]) + len(r.IP) - r.PayLen; h > hdrMax {
+					hdrMax = h
+				}
+			}
+		}
+		snap = snapCandidates[s.SnapChoice-1]
+		if snap < 10 {
+			snap += hdrMax
+		}
+		if snap < hdrMax {
+			snap = hdrMax
+		}
+		s.Snaplen = uint32(snap)
+	}
+	// frameOf returns what the capture holds of the frame and the frame's
+	// length on the wire
+	frameOf := func(r *TapRec) ([]byte, int) {
 		cn := w.Conns[r.Conn]
 		src, dst := cn.Ends[r.Side].host, cn.Ends[1-r.Side].host
 		i := ifOf(r)
-		return frame(s.Links[i], s.BigEndian(), s.EthPad, r.IP, src, dst, r.Side == 0, i, &padded)
+		f := frame(s.Links[i], s.BigEndian(), s.EthPad, r.IP, src, dst, r.Side == 0, i, &padded)
+		orig := len(f)
+		r.Cut = 0
+		if snap > 0 && orig > snap {
+			f = f[:snap]
+			w.Faults[FSnapTrunc]++
+			payEnd := linkHdrLen(s.Links[i]) + len(r.IP) // padding, if any, follows
+			if cut := payEnd - snap; cut > 0 {
+				if cut > r.PayLen {
+					cut = r.PayLen
+				}
+				r.Cut = cut
+				w.Faults[FSnapCut]++
+			}
+		}
+		return f, orig
 	}
 	if !s.IsPcapng() {
 		nano := s.FileType == FilePcapLENano || s.FileType == FilePcapBENano
@@ -228,7 +290,7 @@ func WriteCapture(w *World, s *CaptureSpec) []byte {
 			if r.Omitted {
 				continue
 			}
-			f := frameOf(r)
+			f, orig := frameOf(r)
 			e.u32(s.BaseSec + uint32(r.T/1e9))
 			if nano {
 				e.u32(uint32(r.T % 1e9))
@@ -236,7 +298,7 @@ func WriteCapture(w *World, s *CaptureSpec) []byte {
 				e.u32(uint32(r.T % 1e9 / 1000))
 			}
 			e.u32(uint32(len(f)))
-			e.u32(uint32(len(f)))
+			e.u32(uint32(orig))
 			e.b = append(e.b, f...)
 		}
 		w.Faults[FEthPad] += padded
@@ -320,7 +382,7 @@ func WriteCapture(w *World, s *CaptureSpec) []byte {
 			idb(1)
 			secondDone = true
 		}
-		f := frameOf(r)
+		f, orig := frameOf(r)
 		ts := uint64(s.BaseSec)*1e9 + uint64(r.T)
 		if s.TsResol != 9 {
 			ts /= 1000
@@ -331,7 +393,7 @@ func WriteCapture(w *World, s *CaptureSpec) []byte {
 			e.u32(uint32(ts >> 32))
 			e.u32(uint32(ts))
 			e.u32(uint32(len(f)))
-			e.u32(uint32(len(f)))
+			e.u32(uint32(orig))
 			e.b = append(e.b, f...)
 			e.pad4()
 			if s.EPBOptions {
